@@ -580,7 +580,7 @@ def unw (P : Prims) : Nat → String → Json → Json → Json → Json → Bs 
       (match jwk.getStr? "kty", rsaKeyOf jwk with
        | some "RSA", some key =>
          (bytesOfJson (rcp.get? "encrypted_key")).bind fun ct =>
-         let res : Option Bs := key.d.bind fun d => P.rsaDec oaep key.n d ct
+         let res : Option Bs := if key.hasPriv then P.rsaDec oaep key.priv ct else none
          (match res, oaep with
           | some pt, _ => some (.obj (setKV "k" (B64.enc pt) c))
           | none, none => some (.obj (setKV "k" (B64.enc (rnd.take ct.length)) c))   -- RSA1_5: random CEK
